@@ -581,6 +581,32 @@ def run_conc(tier, seed):
                          "returned": o["val"], "loop": o["loop"]} for o in obs[:: max(1, len(obs) // 2)][:2]]}
 
 
+def run_proof():
+    """Unbounded safety of the build lock at model level: spec/BuildLockProof.tla (an inductive invariant and its TLAPS proof,
+    for any finite sets of threads and any number of call sites) is re-checked by tlapm."""
+    import shutil
+    import subprocess
+    import tempfile
+
+    if shutil.which("tlapm") is None:
+        return {"ran": False, "proved": False, "note": "tlapm not found"}
+    os.makedirs(common.CACHE, exist_ok=True)
+    cache = tempfile.mkdtemp(prefix="tlaps-", dir=common.CACHE)
+    t0 = time.time()
+    try:
+        p = subprocess.run(["tlapm", "--threads", "4", "--cache-dir", cache, "-I", tlc.SPEC, os.path.join(tlc.SPEC, "BuildLockProof.tla")],
+                           capture_output=True, text=True, timeout=900, cwd=cache)
+        out = p.stdout + p.stderr
+    except subprocess.TimeoutExpired:
+        out = "timeout"
+    finally:
+        shutil.rmtree(cache, ignore_errors=True)
+    import re
+    m = re.search(r"All (\d+) obligations proved", out)
+    return {"ran": True, "proved": bool(m), "obligations": int(m.group(1)) if m else 0, "wall": round(time.time() - t0, 1),
+            "note": "" if m else out[-400:]}
+
+
 def run_model():
     out = []
     for cfg, expect in (("BuildLockOwner.cfg", None), ("BuildLockLocked.cfg", "CallersAlone")):
@@ -600,10 +626,12 @@ def run(tier, seed, log=common.say):
     t0 = time.time()
     with cf.ThreadPoolExecutor(2) as ex:
         fm = ex.submit(run_model)
+        fp = ex.submit(run_proof)
         build = run_build(tier, seed)
         conc = run_conc(tier, seed)
         model = fm.result()
-    res = {"engine": "E5", "tier": tier, "seed": seed, "build": build, "conc": conc, "model": model, "wall": round(time.time() - t0, 1)}
+        proof = fp.result()
+    res = {"engine": "E5", "tier": tier, "seed": seed, "build": build, "conc": conc, "model": model, "proof": proof, "wall": round(time.time() - t0, 1)}
     common.cache_put("E5", key, res)
     return res
 
@@ -655,7 +683,10 @@ def report(prop, res):
            "traces_validated_against_impl": b["validated"] + c["observations"], "evaluations": b["scenarios"] + c["observations"],
            "distinct_nontrivial": nontriv, "rule": rule, "samples": (b["samples"][:1] + c["samples"][:1]), "exhaustive": False,
            "build_scenarios": b["scenarios"], "concurrent_observations": c["observations"], "counts": {"build": b["counts"], "conc": c["counts"]},
-           "model_runs": res["model"], "engine_cached": bool(res.get("cached"))}
+           "model_runs": res["model"], "tlaps_proof_of_BuildLock_invariants": res.get("proof", {}), "engine_cached": bool(res.get("cached"))}
+    if prop == "C16" and res.get("proof", {}).get("ran") and not res["proof"]["proved"]:
+        # the proof is an addition to the model checking of the finite instances, which stands on its own: reported, not fatal
+        common.say("NOTE: tlapm did not re-check spec/BuildLockProof.tla on this machine: " + res["proof"].get("note", "")[-200:])
     assumptions = ["interleavings are controlled at pause points inside describing functions and at whole calls; instruction-level races inside tawazi are out of reach",
                    "simultaneous calls overlap through a barrier / gate inside the node functions; the schedule inside each call is the thread pool's",
                    "the loop-liveness claim is checked for DAGs whose nodes all use the async-thread resource (a main-thread node or a blocking wait on thread futures occupies the loop by design)"]
